@@ -12,11 +12,14 @@ Tie to the code (model: coq/theories/Population.v [create], lemmas: PopulationPr
                    rows, duplicate labels, a second writer with equal / conflicting values, no new column.
                    Observed: the table at the entry of every initializer and after every action, the labels
                    returned, the initializer log, the manager's flags.
-  stream `edge`    (python oracle only; the model has no counterpart) creations requested from a post_setup or a
-                   simulation_end listener - the life cycle refuses the manager's own update there; the outcome class
-                   is recorded, not asserted - and nested inside an initializer (during the initial creation and during
-                   a birth): labels handed out are the consecutive fresh ones, rows are never lost, existing cells keep
-                   their values.
+                   Creations the life cycle refuses (requested from a post_setup listener - before the initial
+                   population, whose creation then meets the half-made table -, from a simulation_end listener, from
+                   outside after the end) are part of the programs and of the Coq correspondence: the manager's own
+                   update raises (ARefused), the rows stay, the flags stay set (C13_refused_creation).
+  stream `edge`    (python oracle only) the same refused creations once more with the outcome class recorded, and
+                   creations NESTED inside an initializer (during the initial creation and during a birth), which the
+                   model does not cover: labels handed out are the consecutive fresh ones, rows are never lost,
+                   existing cells keep their values.  (corpus/C13/pending/nested_creation_demo.py: for triage.)
 Direct oracle: labels == range(old_len, old_len+count); rows afterwards 0..old_len+count-1; at the entry of the first
 initializer every old cell has its old value (up to int64/float64) and the new rows are null; every probe called
 exactly once with index == the new labels, the user data given, creation_time == clock, creation_window == step size
@@ -49,8 +52,10 @@ TRUSTED = [
     "creation-time branches of population_view.py; pandas DataFrame.reindex (old rows kept, new rows null, bool->object "
     "and int64->float64 promotion, none for count 0) and Index.difference as transcribed - validated on the explored "
     "cases only",
-    "C13: the manager's flags are cross-checked through the private attribute InteractiveContext._population when "
-    "readable (read defensively; skipped otherwise); everything else through public interfaces (see C11)",
+    "C13: no private name of /repo/src is read.  The population manager is looked up BY TYPE among the context's "
+    "attributes (public class PopulationManager) for two purposes: cross-checking its public flags (skipped if not "
+    "found) and reading the table through its public get_population while the life cycle still refuses the context's "
+    "accessor (before population_creation); everything else through public interfaces (see C11)",
 ]
 CLAIM = {
     "technique": "Coq proof over a Gallina model + sampled model/implementation correspondence on real contexts",
@@ -68,8 +73,10 @@ CLAIM = {
     "note": "Sampled correspondence (not exhaustive); the manager's own initializer is not observed directly (its effect "
             "is); the open known findings F-L and F-Z (int64 values beyond 2^53 of existing simulants are rounded by any "
             "birth: reindex promotes int64 to float64) are reproduced on every run as KNOWN-FINDING (witnesses proved in "
-            "props/C13.v: C13_wrong_dtype_refuted, C13_bigint_refuted); creations requested from post_setup / "
-            "simulation_end listeners and from inside an initializer (stream `edge`) are checked by the python oracle only.",
+            "props/C13.v: C13_wrong_dtype_refuted, C13_bigint_refuted); creations refused by the life cycle (post_setup / "
+            "simulation_end / after the end) are inside the model and the correspondence (C13_refused_creation, "
+            "C13_abandoned_creation: rows added, flags left set); creations nested inside an initializer are checked by the "
+            "python oracle only (stream `edge`; pending triage: corpus/C13/pending/nested_creation_demo.py).",
 }
 LEVEL_NOTE = ""
 
@@ -84,10 +91,10 @@ def streams(tier):
     return [
         Stream(name="births", imports="From Viv Require Import Common Population.", check="check_pop",
                gen=lambda rng: popdrv.gen_program(rng, "create"), run=popdrv.run_program, corpus=_corpus,
-               n_quick=200, n_thorough=2000, finding_of=popdrv.finding_of,
+               n_quick=200, n_thorough=1600, finding_of=popdrv.finding_of, shrink=popdrv.shrink_program,
                doc="creation histories on real contexts: labels, old rows, initializer log, full-table comparison"),
         Stream(name="edge", imports="From Viv Require Import Common Population.", check="check_pop",
-               gen=popdrv.gen_edge, run=popdrv.run_edge, n_quick=40, n_thorough=300, finding_of=popdrv.finding_of,
+               gen=popdrv.gen_edge, run=popdrv.run_edge, n_quick=40, n_thorough=200, finding_of=popdrv.finding_of, shrink=popdrv.shrink_edge,
                doc="python oracle only: creations from post_setup / simulation_end listeners (outcome class recorded) and "
                    "nested inside an initializer - labels fresh and consecutive, no row lost, existing cells keep their values"),
     ]
